@@ -13,7 +13,7 @@
 //                {tuples:[[i,j,..],..]} (explicit pool indexes)
 //      checks  : [[selector, refExpr, seq], ..]   selector "r:v" = values handed to wrapper.r(elem,"v",value) of every
 //                element in document order ("d:k" dataset, "m:k" mark, "c" class, "y" style, "i" id, "l:k" slot value),
-//                "t" = text contents of all text nodes in document order.  refExpr is a JavaScript expression over
+//                "t" = text contents of all text nodes in document order, "sn" = names of all <slot> nodes.  refExpr is a JavaScript expression over
 //                $d (the data object), $get (null-safe read), $call (plain-function call, undefined for a non-function),
 //                $str (null/undefined -> '', else String(v)), $each(list, (item,index)=>..) (what a wx:for visits).  seq=false: exactly one observation, equal to refExpr;
 //                seq=true: refExpr is the array of all observations.
@@ -36,13 +36,19 @@
 // TAGGED DATA ENCODING (decode()):  JSON values stand for themselves; {"$":"undefined"|"nan"|"-0"|"inf"|"-inf"}, {"$":"hole"}
 //  (inside an array: an empty slot), {"$":"fn","k":"this"} (strict function returning ['this', <what this was>, ...args]),
 //  {"$":"fn","k":"ret","v":enc} (returns v), {"$":"fn","k":"count"} (returns 1,2,3,.. - reset before every evaluation),
-//  {"$":"fn","k":"ctor"} / {"$":"inst"} (a constructor and an instance of it), {"$":"nullproto","v":{..}}.
+//  {"$":"fn","k":"ctor"} / {"$":"inst"} (a constructor and an instance of it), {"$":"nullproto","v":{..}},
+//  {"$":"echo"} (an object whose every property k reads as the string "echo:k").
 //
 // STUB RUNTIME = the part of glass-easel/src/tmpl/proc_gen_wrapper.ts the generated code talks to:
 //  wrapper methods r d m c y i s l a wl v p setFnFilter setEventListenerWrapper devArgs (they only record on the stub
 //  element); creation and update protocol for text nodes, elements, wx:if groups, wx:for (arrays and plain objects; on
 //  update the items are updated in place when the length is unchanged, else rebuilt), slots, pure virtual nodes,
-//  `template is` (through the group's own I()).  NOT modelled: components / properties / model listeners, dynamic slots
+//  `template is` (through the group's own I()).  SLOT VALUES: the children function of element <tag> is called with
+//  V = an object whose every key k reads "tag:k" (what a dynamic-slot component hands to its slot content) and, on update,
+//  W = {}.  Deviations from proc_gen_wrapper.ts, both deliberate: V/W are also passed on to wx:if branches, wx:for items
+//  and virtual nodes inside that element (the generated functions declare the parameters; the real wrapper passes
+//  undefined there), and the top level gets V = undefined but W = {} (the real wrapper passes undefined, so a template
+//  with a top-level `slot:` reference throws on `W.x` during an update).  NOT modelled: components / properties / model listeners, dynamic slots
 //  (V/W are undefined as for a non-dynamic-slot shadow root), event dispatch, keyed list diffing, placeholder replacement,
 //  import/include across files (G is only available in the groups bundle, which is parsed, not executed).
 'use strict'
@@ -73,6 +79,7 @@ function decode(e) {
       case '-inf': return -Infinity
       case 'hole': return HOLE
       case 'inst': return theInstance
+      case 'echo': return new Proxy({}, { get: (t, k) => (typeof k === 'string' ? 'echo:' + k : undefined) })
       case 'nullproto': return Object.assign(Object.create(null), decode(e.v))
       case 'fn': {
         if (e.k === 'this') {
@@ -164,64 +171,67 @@ function forEntries(list) {
   if (list !== null && typeof list === 'object') return Object.keys(list).map((k) => [list[k], k])
   return []
 }
-function create(children) {
+// slot values handed to the children of element <tag>: every key k reads as the string "tag:k"
+const slotValuesFor = (tag) => new Proxy({}, { get: (t, k) => (typeof k === 'string' ? tag + ':' + k : undefined) })
+function create(children, V) {
   const nodes = []
   const T = (text, init) => { const n = { t: 'text', text: text === undefined ? '' : text }; if (init) init(n); nodes.push(n) }
   const E = (tag, generics, init, ch, slot) => {
     const n = newElem('el', { tag, generics, slot })
     init(n, true)
-    n.children = create(ch)
+    n.children = create(ch, slotValuesFor(tag))
     nodes.push(n)
   }
-  const B = (key, fn) => { nodes.push(newElem('if', { key, children: create(fn) })) }
+  const B = (key, fn) => { nodes.push(newElem('if', { key, children: create(fn, V) })) }
   const F = (list, key, upt, lvaluePath, cb) => {
     const n = newElem('for', { key })
-    n.children = forEntries(list).map(([item, index]) => createItem(cb, item, index, lvaluePath))
+    n.children = forEntries(list).map(([item, index]) => createItem(cb, item, index, lvaluePath, V))
     nodes.push(n)
   }
   const S = (name, init, slot) => { const n = newElem('slot', { name: $str(name), slot }); if (init) init(n); nodes.push(n) }
-  const J = (ch, slot) => { nodes.push(newElem('virtual', { slot, children: create(ch) })) }
-  children(true, T, E, B, F, S, J, undefined, undefined)
+  const J = (ch, slot) => { nodes.push(newElem('virtual', { slot, children: create(ch, V) })) }
+  children(true, T, E, B, F, S, J, V, undefined)
   return nodes
 }
-function createItem(cb, item, index, lvaluePath) {
+function createItem(cb, item, index, lvaluePath, V) {
   return newElem('item', {
-    children: create((c, T, E, B, F, S, J) => cb(true, item, index, undefined, undefined, lvaluePath ? lvaluePath.concat([index]) : null, T, E, B, F, S, J)),
+    children: create((c, T, E, B, F, S, J, V2, W2) => cb(true, item, index, undefined, undefined, lvaluePath ? lvaluePath.concat([index]) : null, T, E, B, F, S, J, V2, W2), V),
   })
 }
-function update(nodes, children) {
+function update(nodes, children, V) {
   let at = 0
   const next = () => { const n = nodes[at]; at += 1; return n }
   const T = (text) => { const n = next(); if (n && text !== undefined) n.text = text }
-  const E = (tag, generics, init, ch) => { const n = next(); if (!n) return; init(n, false); update(n.children, ch) }
+  const E = (tag, generics, init, ch) => { const n = next(); if (!n) return; init(n, false); update(n.children, ch, slotValuesFor(tag)) }
   const B = (key, fn) => {
     const n = next()
     if (!n) return
-    if (n.key === key) update(n.children, fn)
-    else { n.key = key; n.children = create(fn) }
+    if (n.key === key) update(n.children, fn, V)
+    else { n.key = key; n.children = create(fn, V) }
   }
   const F = (list, key, upt, lvaluePath, cb) => {
     const n = next()
     if (!n) return
     const entries = forEntries(list)
     if (entries.length !== n.children.length) {
-      n.children = entries.map(([item, index]) => createItem(cb, item, index, lvaluePath))
+      n.children = entries.map(([item, index]) => createItem(cb, item, index, lvaluePath, V))
       return
     }
     entries.forEach(([item, index], i) => {
       // eslint-disable-next-line no-nested-ternary
       const u = upt === true ? true : upt ? upt[index] : undefined
-      update(n.children[i].children, (c, T2, E2, B2, F2, S2, J2) => cb(false, item, index, u, undefined, lvaluePath ? lvaluePath.concat([index]) : null, T2, E2, B2, F2, S2, J2))
+      update(n.children[i].children, (c, T2, E2, B2, F2, S2, J2, V2, W2) => cb(false, item, index, u, undefined, lvaluePath ? lvaluePath.concat([index]) : null, T2, E2, B2, F2, S2, J2, V2, W2), V)
     })
   }
   const S = (name, init) => { const n = next(); if (!n) return; if (name !== undefined) n.name = $str(name); if (init) init(n) }
-  const J = (ch) => { const n = next(); if (n) update(n.children, ch) }
-  children(false, T, E, B, F, S, J, undefined, undefined)
+  const J = (ch) => { const n = next(); if (n) update(n.children, ch, V) }
+  // W (update path trees of the slot values): an empty object = no slot value changed; K (whole data) drives the update
+  children(false, T, E, B, F, S, J, V, {})
 }
 function observe(nodes, sel, out) {
   for (const n of nodes) {
     if (n.t === 'text') { if (sel === 't') out.push(n.text) } else {
-      if (sel !== 't' && Object.prototype.hasOwnProperty.call(n.attrs, sel)) out.push(n.attrs[sel])
+      if (sel === 'sn') { if (n.t === 'slot') out.push(n.name) } else if (sel !== 't' && Object.prototype.hasOwnProperty.call(n.attrs, sel)) out.push(n.attrs[sel])
       observe(n.children, sel, out)
     }
   }
@@ -333,7 +343,7 @@ function runEval(c) {
     try {
       counter = 0
       const inst = procGen(wrapper, true, data, undefined)
-      const root = create(inst.C)
+      const root = create(inst.C, undefined)
       if (!compare(root)) return res
       phase = 'binding-map update'
       if (inst.B) {
@@ -349,7 +359,7 @@ function runEval(c) {
       phase = 'update'
       counter = 0
       const upd = procGen(wrapper, false, data, true)
-      update(root, upd.C)
+      update(root, upd.C, undefined)
       if (!compare(root)) return res
     } catch (e) {
       fail('*', 'exception: ' + String(e), c.checks.map((ch, i) => show(wants[i])).join(' ; '))
